@@ -92,7 +92,7 @@ func TestVerifC17ExecReaders(t *testing.T) {
 			t.Errorf("replay: %v", err)
 		}
 	}
-	if only {
+	if only || t.Failed() {
 		return
 	}
 	defer rec.Commit(verifC17Name)
